@@ -48,14 +48,21 @@ def build(case):
         _dsig.timestamp = lambda: case['sig_time']
         _dsig.gen_nonce_64 = lambda: case['sig_nonce']
         p = case['params']
-        ip = InterestParam(can_be_prefix=p['can_be_prefix'], must_be_fresh=p['must_be_fresh'], nonce=p['nonce'],
-                           lifetime=p['lifetime'], hop_limit=p['hop_limit'],
-                           forwarding_hint=[[S.comp_bytes(c) for c in n] for n in p['forwarding_hint']])
+        kw = dict(can_be_prefix=p['can_be_prefix'], must_be_fresh=p['must_be_fresh'], nonce=p['nonce'],
+                  lifetime=p['lifetime'], hop_limit=p['hop_limit'],
+                  forwarding_hint=[[S.comp_bytes(c) for c in n] for n in p['forwarding_hint']])
+        # (the dict constructor is an equivalent way to state the same field combination, explicit None included)
+        ip = InterestParam.from_dict(kw) if case.get('reuse') else InterestParam(**kw)
         wire, final_name = make_interest(name_arg, ip, payload, signer, need_final_name=True)
         return exp, bytes(wire), payload, signer, [bytes(c) for c in final_name]
     m = case['meta']
-    mi = None if m is None else MetaInfo(m['content_type'], m['freshness_period'],
-                                         None if m['final_block_id'] is None else bytes.fromhex(m['final_block_id']))
+    fb = None if m is None or m['final_block_id'] is None else bytes.fromhex(m['final_block_id'])
+    if m is None:
+        mi = None
+    elif case.get('reuse'):
+        mi = MetaInfo.from_dict({'content_type': m['content_type'], 'freshness_period': m['freshness_period'], 'final_block_id': fb})
+    else:
+        mi = MetaInfo(m['content_type'], m['freshness_period'], fb)
     wire = make_data(name_arg, mi, payload, signer)
     return exp, bytes(wire), payload, signer, None
 
@@ -107,6 +114,28 @@ def run_case(case):
                     mi = None if m_ is None else MetaInfo(m_['content_type'], m_['freshness_period'],
                                                           None if m_['final_block_id'] is None else bytes.fromhex(m_['final_block_id']))
                     wires.append(bytes(make_data(name_obj, mi, payload, K.make_signer(case['signer']))))
+            if kind == 'data' and case['meta'] is not None and case['signer']['kind'] in ('none', 'digest', 'hmac', 'synthetic', 'null'):
+                # the same MetaInfo OBJECT is used for a first packet, one of its fields is re-assigned, and it is used again
+                m_ = case['meta']
+                fb1 = None if m_['final_block_id'] is None else bytes.fromhex(m_['final_block_id'])
+                mi_obj = MetaInfo(m_['content_type'], m_['freshness_period'], fb1)
+                first_w = bytes(make_data(P.name_in_rep(case['name'], 0), mi_obj, payload, K.make_signer(case['signer'])))
+                # (exactly ONE field is re-assigned: which one is drawn with the case)
+                fb2, fp2 = fb1, m_['freshness_period']
+                if case['name_rep'] % 2 == 0:
+                    fb2 = None if fb1 is not None else b'\x32\x01\x07'
+                    mi_obj.final_block_id = fb2
+                else:
+                    fp2 = ((m_['freshness_period'] or 0) + 1) % 2 ** 64
+                    mi_obj.freshness_period = fp2
+                case2 = dict(case, meta=dict(m_, final_block_id=None if fb2 is None else fb2.hex(), freshness_period=fp2))
+                second_w = bytes(make_data(P.name_in_rep(case['name'], 0), mi_obj, payload, K.make_signer(case['signer'])))
+                exp2 = P.Expected(case2)
+                want2, _sp2, _f2 = exp2.assemble(payload, P.strict_data(second_w)['sig_value'] or b'') if True else (None, None, None)
+                if first_w != wire:
+                    r.bad('C01/second-packet-from-same-name-object-differs/data', 'fresh MetaInfo object')
+                if second_w != want2:
+                    r.bad('C01/meta-info-object-reused-after-reassignment', f'{second_w.hex()[:100]} expected {want2.hex()[:100]}')
             if _snapshot(name_obj) != before:
                 r.bad(f'C01/caller-name-object-modified/{kind}', f'rep {case["name_rep"] % 10}: {before} -> {_snapshot(name_obj)}')
             if wires[0] != wire or wires[1] != wire:
